@@ -356,7 +356,7 @@ func runC19(c *ShardCtx) {
 			one(g2, optSet)
 		}
 	}
-	// history independence (shard 0 only)
+	// history independence (all sequences of 2 and 3 builds out of 6 requests in one process, plus EVERY ordered pair of builds of a 4 grammars x 5 flag sets matrix whose members need different parts of the emitted runtime) (shard 0 only)
 	if c.Shard == 0 {
 		historyIndependence(c)
 	}
@@ -443,5 +443,75 @@ func historyIndependence(c *ShardCtx) {
 	}
 	c.Res.Counters["history_sequences"] = int64(len(seqs))
 	_ = os.Getenv
+	// the grammar x flag matrix: every ORDERED PAIR of builds in one process (a result must not
+	// depend on what the process built before: caches keyed too coarsely, builder state that is not
+	// reset); grammars differ in what they need from the emitted runtime
+	texts := []string{
+		"{\npackage p\n}\nS <- 'a' B\nB <- [ab] { return 1, nil }\n",
+		"{\npackage p\n}\nS <- 'a' #{ return nil } B\nB <- [\\pL] &{ return true, nil }\n",
+		"{\npackage p\n}\nE \"expr\" <- E '+' T / T\nT <- [0-9]\n",
+		"{\npackage p\n}\nE <- E '+' T #{ return nil } / T\nT <- [\\p{Nd}x] / %{l} //{l} 'q'\n",
+	}
+	flagSets := []hook.Req{{}, {Optimize: true}, {Optimize: true, BasicLatin: true, LeftRec: true}, {LeftRec: true, Nolint: true}, {OptGrammar: true, Optimize: true, LeftRec: true}}
+	var matrix []hook.Req
+	for _, t := range texts {
+		for _, f := range flagSets {
+			r := f
+			r.Mode, r.Text = "build", []byte(t)
+			matrix = append(matrix, r)
+		}
+	}
+	aloneM := make([]string, len(matrix))
+	for i := range matrix {
+		srv, err := hook.Start(bin)
+		if err != nil {
+			panic(&core.HarnessError{Msg: err.Error()})
+		}
+		r, err := srv.Call(&matrix[i])
+		srv.Close()
+		if err != nil {
+			panic(&core.HarnessError{Msg: err.Error()})
+		}
+		aloneM[i] = outcomeKey(r)
+	}
+	pairs := 0
+	for i := range matrix {
+		// one process per first build; every second build in a process that has only built i before
+		for j := range matrix {
+			srv, err := hook.Start(bin)
+			if err != nil {
+				panic(&core.HarnessError{Msg: err.Error()})
+			}
+			for pos, k := range []int{i, j} {
+				r, err := srv.Call(&matrix[k])
+				if err != nil {
+					panic(&core.HarnessError{Msg: err.Error()})
+				}
+				c.Res.Evaluations++
+				c.Res.States++
+				c.Res.Transitions++
+				if key := outcomeKey(r); key != aloneM[k] {
+					c.Report(Violation{Desc: fmt.Sprintf("repeated builds inside one process: build %d (flags %s) as number %d after build %d (flags %s) gives %s, alone %s", k, flagsDesc2(&matrix[k]), pos+1, i, flagsDesc2(&matrix[i]), key, aloneM[k]),
+						Grammar: string(matrix[k].Text), Gen: flagsDesc2(&matrix[k])}, "")
+				}
+			}
+			srv.Close()
+			pairs++
+		}
+	}
+	c.Res.Counters["history_pairs_matrix"] = int64(pairs)
+}
+
+func flagsDesc2(r *hook.Req) string {
+	var p []string
+	for _, f := range []struct {
+		on   bool
+		name string
+	}{{r.Optimize, "-optimize-parser"}, {r.BasicLatin, "-optimize-basic-latin"}, {r.LeftRec, "-support-left-recursion"}, {r.OptGrammar, "-optimize-grammar"}, {r.Nolint, "-nolint"}} {
+		if f.on {
+			p = append(p, f.name)
+		}
+	}
+	return strings.Join(p, " ")
 }
 
